@@ -9,7 +9,7 @@ RULE = ('(a) every valid chunked encoding of bodies of 0..N bytes (N=4 quick, 6 
         'every chunk or to exactly one chunk/last-chunk x 4 trailers; (a2) chunk sizes 10..257 in 5 spellings; '
         '(b) every string of <= L1 tokens (3 quick, 4 thorough) over a 24-token hostile alphabet (hex digits, 0x/0X, '
         'non-hex, ; = " \\ SP HTAB CR LF CRLF VT NUL, 2^63-1, 2^63, 2^64 numerals) and every longer string up to L2 tokens '
-        '(5 quick, 6 thorough) whose proper prefixes are still need-more for the reference; (c) every single-byte deletion and every replacement/insertion of 17 edit tokens at every position of the valid encodings of bodies <= 2 (quick) / 3 (thorough) bytes with 4 extension forms x 2 trailers. Each input runs with '
+        '(4 quick, 5 thorough) whose proper prefixes are still need-more for the reference; (c) every single-byte deletion and every replacement/insertion of 17 edit tokens at every position of the valid encodings of bodies <= 2 (quick) / 3 (thorough) bytes with 4 extension forms x 2 trailers. Each input runs with '
         'relaxed_header_parser off/on, whole under up to 12 (MemBuf max_capacity, drain policy) configurations, at '
         'every 2-piece split point and byte by byte (short valid encodings: every segmentation); every observation '
         '(after the first piece too, i.e. every prefix) is judged against the reference verdict for the bytes fed so '
@@ -35,10 +35,13 @@ def run(ctx):
     oc = m['outcomes']
     cnt = m['counters']
     if not m['deadline_hit']:
-        need = ['valid:decoded', 'tok:done', 'tok:need-more', 'tok:error:0x-prefix', 'tok:error:non-hex-size',
-                'tok:error:size-overflow', 'tok:error:missing-crlf-after-size', 'tok:error:missing-crlf-after-data',
-                'tok:error:bad-ext-name', 'tok:error:bad-ext-value', 'tok:error:bad-quoted-string', 'tok:error:bad-quoted-pair']
-        missing = [k for k in need if oc.get(k, 0) == 0]
+        if oc.get('valid:decoded', 0) == 0:
+            raise HarnessError('vacuity guard: no valid encoding was decoded')
+        # every verdict class of the reference must have been reached by a malformed/truncated input (token strings or edits)
+        need = ['done', 'need-more', 'error:0x-prefix', 'error:non-hex-size', 'error:size-overflow', 'error:missing-crlf-after-size',
+                'error:missing-crlf-after-data', 'error:bad-ext-name', 'error:bad-ext-value', 'error:bad-quoted-string', 'error:bad-quoted-pair',
+                'trailer-unspecified', 'need-more:tolerated']
+        missing = [k for k in need if oc.get('tok:' + k, 0) + oc.get('edit:' + k, 0) == 0]
         if missing:
             raise HarnessError('vacuity guard: outcome classes never reached: %r (have %r)' % (missing, oc))
         for c, least in (('space_stalls', 1000), ('real_done', 100), ('real_need_more', 100), ('real_error', 100),
